@@ -103,9 +103,14 @@ def record_long(spec):
     ref = np.asarray(twin.get_series(int(sum(sizes))))
     ev = []
     pos = 0
+    by_sample = spec.get("by_sample", False)          # a run of get_sample calls (real prefetch size) instead of block requests
     for n in sizes:
-        out = np.asarray(g.get_series(n))
-        o3 = np.asarray(third.get_series(n))
+        if by_sample:
+            out = np.array([g.get_sample() for _ in range(n)], dtype=float)
+            o3 = np.array([third.get_sample() for _ in range(n)], dtype=float)
+        else:
+            out = np.asarray(g.get_series(n))
+            o3 = np.asarray(third.get_series(n))
         ev.append({"n": int(n), "len": int(out.size), "pos": int(pos), "match": int(out.tobytes() == ref[pos:pos + n].tobytes()),
                    "same": int(out.tobytes() == o3.tobytes())})
         pos += n
@@ -175,6 +180,8 @@ def run(tier):
         if (k // 4) % 2 == 0:          # every generator kind gets requests beyond 2^16 samples
             sizes.insert(rnd.randint(0, len(sizes)), rnd.choice([65536, 65537, 70000, 131073]))
         specs.append(dict(kind=["white", "red", "alpha", "pink"][k % 4], seed=rnd.randrange(2 ** 31), settled=bool(k % 3 == 0), sizes=sizes))
+    for k in range(4):             # runs of single samples across several refills of the real 4096-sample prefetch buffer
+        specs.append(dict(kind=["white", "red", "alpha", "pink"][k], seed=rnd.randrange(2 ** 31), settled=False, sizes=[1, 4095, 1, 4096, 3000], by_sample=True))
     trs = common.pmap(record_long, specs, chunksize=1)
     vd, tres = traces.validate("NoiseTrace", f"{PID}_trace", trs)
     V.model(tres, "NoiseTrace.tla (long random call sequences)")
